@@ -302,3 +302,148 @@ def race_reports(stderr):
         out.append({"frames": ["%s %s:%s" % f for f in frames[:8]], "in_xixi": bool(own),
                     "key": "|".join(sorted(set(f[0].split("/")[-1] for f in (own or frames)[:2])))})
     return out
+
+
+# ---------------------------------------------------------------- concurrent Merge vs Model/ConcMerge.lean
+
+MKEYS = ["%02x%02x" % (97 + j, 97 + j) for j in range(5)]     # model keys 1..5
+
+
+def merge_model_scenarios(rng, idx, n):
+    """one old file (file size 64 KiB, setup < 30 KB) so that the visiting order of the scan is the log order"""
+    scs = []
+    for i in range(n):
+        seed = rng.randrange(1, 500) * 100
+        setup = []
+        present = set()
+        for _ in range(rng.randrange(3, 14)):
+            k = rng.choice(MKEYS)
+            seed += 1
+            if k in present and rng.random() < 0.3:
+                setup.append("del %s" % k)
+                present.discard(k)
+            else:
+                setup.append("put %s p%d:%d" % (k, seed, rng.choice([10, 300, 1200])))
+                present.add(k)
+        nrec = len(setup)
+        b = []
+        for _ in range(rng.choice([1, 2, 4])):
+            seed += 1
+            k = rng.choice(MKEYS)
+            b.append(rng.choice(["put %s p%d:%d" % (k, seed, rng.choice([10, 700])), "del %s" % k]))
+        point = "merge.record" if i % 4 else "merge.rotated"
+        scs.append({"cfg": "65536 0 0 %d %d 4" % (idx, rng.choice([0, 0, 1])), "setup": setup, "a": "merge", "point": point,
+                    "nth": rng.randrange(1, nrec + 2) if point == "merge.record" else 1, "b": b, "after": [], "meta": {"nrec": nrec}})
+    return scs
+
+
+def _client_steps(t, op, exists):
+    f = op.split()
+    k = MKEYS.index(f[1]) + 1
+    if f[0] == "put":
+        v = int(f[2][1:].split(":")[0])
+        return ["%d:put %d %d" % (t, k, v), "%d:acq" % t, "%d:append" % t, "%d:index" % t, "%d:rel" % t, "%d:ret" % t], True
+    s = ["%d:del %d" % (t, k), "%d:acq" % t, "%d:check" % t]
+    if not exists:
+        return s + ["%d:rel" % t, "%d:ret" % t], False
+    return s + ["%d:append" % t, "%d:index" % t, "%d:rel" % t, "%d:ret" % t], False
+
+
+def merge_model_schedule(sc, o):
+    """the ConcMerge schedule of the observed run: setup; m:start; the visits before the pause; B; the rest"""
+    present = set()
+    sched = []
+    for op in sc["setup"]:
+        k = op.split()[1]
+        st, now = _client_steps(9, op, k in present)
+        sched += st
+        (present.add if now else present.discard)(k)
+    nrec = sc["meta"]["nrec"]
+    before = 0 if sc["point"] == "merge.rotated" else sc["nth"] - 1
+    if not o.get("reached"):
+        before = nrec
+    sched += ["m:start"] + ["m:visit"] * before
+    bsteps = []
+    for op in sc["b"]:
+        k = op.split()[1]
+        st, now = _client_steps(1, op, k in present)
+        bsteps += st
+        (present.add if now else present.discard)(k)
+    if o.get("reached"):
+        sched += bsteps + ["m:visit"] * (nrec - before) + ["m:finish"]
+    else:
+        sched += ["m:finish"] + bsteps
+    return sched
+
+
+def _dump_map(dump):
+    m = {}
+    body = (dump or "").split(" ", 2)
+    if len(body) == 3 and body[2]:
+        for it in body[2].split(","):
+            k, v = it.split("=", 1)
+            m[k] = v
+    return m
+
+
+def check_merge_model(res, ctx, rng, idx_types, n):
+    if not ctx.model_ok:
+        return
+    for idx in idx_types:
+        scs = merge_model_scenarios(rng, idx, n)
+        outs, err = run_sched(ctx, [{k: v for k, v in s.items() if k != "meta"} for s in scs])
+        if len(outs) < len(scs):
+            res.violation("schedule harness died in the merge/model scenarios: %s" % err[-300:], {"scenario": scs[len(outs)]})
+        for sc, o in zip(scs, outs):
+            res.evaluations += 1
+            res.count("sched:merge-model")
+            replay = {"scenario": {k: v for k, v in sc.items() if k != "meta"}, "observed": o}
+            name = "Merge (index %d) paused at %s #%d while %s ran" % (idx, sc["point"], sc["nth"], sc["b"])
+            if o.get("error") or o.get("a", "").split(" ")[0] != "ok" or o.get("b_status") not in ("ran", "sequential"):
+                res.violation("%s: merge=%s b=%s %s" % (name, o.get("a"), o.get("b_status"), o.get("error", "")), replay)
+                continue
+            sched = merge_model_schedule(sc, o)
+            mo = run_model(["concm gen " + "; ".join(sched)])[0]
+            replay["model_schedule"] = sched
+            replay["model"] = mo
+            replay["correspondence"] = "forced merge schedule vs ConcMerge.renderM"
+            if "completed=true" not in mo or "merge=done" not in mo:
+                res.violation("correspondence broke: the interleaving observed on the code (%s) is not a run of the merge model: %s" % (name, mo[:300]),
+                              replay, no_input=True)
+                continue
+            # tokens of the values
+            tok = {}
+            for op in sc["setup"] + sc["b"]:
+                f = op.split()
+                if f[0] == "put":
+                    tok[f[2][1:].split(":")[0]] = core.fmt_val(core.val_bytes(f[2]))
+
+            def mmap_of(tag):
+                m = re.search(tag + r"\[([^\]]*)\]", mo)
+                d = {}
+                for it in (m.group(1).split() if m else []):
+                    k, v = it.split("=")
+                    if v != "-":
+                        d[MKEYS[int(k) - 1]] = tok[v]
+                return d
+            live, adopted = mmap_of("live"), mmap_of("adopted")
+            glive, grest, grest2 = _dump_map(o.get("live")), _dump_map(o.get("restart")), _dump_map(o.get("restart2"))
+            bad = None
+            if glive != live:
+                bad = "live mapping: code %s, model %s" % (glive, live)
+            elif grest != adopted or grest2 != adopted:
+                bad = "mapping after the adopting restart: code %s / %s, model %s" % (grest, grest2, adopted)
+            else:
+                m = re.search(r"post=(\d+) out\[([^\]]*)\]", mo)
+                want = int(m.group(1)) + len(m.group(2).split())
+                got = sum(int(x.split(":")[2]) for x in o.get("restart_scan", "files=").split("files=")[1].split(",") if x)
+                if got != want:
+                    bad = "records on disk after adoption: code %d, model %d (rewritten %s + post-merge %s)" % (got, want, m.group(2), m.group(1))
+            if bad:
+                if glive != grest:
+                    res.violation("%s: %s" % (name, bad), replay)
+                else:
+                    res.violation("correspondence broke (%s): %s" % (name, bad), replay, no_input=True)
+                continue
+            res.count("merge_model_agreed")
+            res.distinct.add(json.dumps([sc["nth"], sc["point"], sc["b"], mo]))
